@@ -234,3 +234,50 @@ fn q_abort_union_second() {
     abort_contract(&a, || core::mem::forget((*u).clone()));
     core::mem::forget(a);
 }
+
+
+// ---- arc-swap's RefCnt::inc (used by Guard::into_inner / load_full): a clone entry point like the others
+#[kani::proof]
+#[kani::stub(std::process::abort, abort_stub)]
+fn q_ok_swap_inc() {
+    crate::ghost::arm();
+    let a = Arc::new(7u32);
+    overflow_contract(&a, || {
+        let _ = <Arc<u32> as arc_swap::RefCnt>::inc(&a);
+    });
+    core::mem::forget(a);
+}
+#[kani::proof]
+#[kani::stub(std::process::abort, abort_stub_checked)]
+fn q_abort_swap_inc() {
+    crate::ghost::arm();
+    let a = Arc::new(7u32);
+    abort_contract(&a, || {
+        let _ = <Arc<u32> as arc_swap::RefCnt>::inc(&a);
+    });
+    core::mem::forget(a);
+}
+#[kani::proof]
+#[kani::unwind(4)]
+#[kani::stub(std::process::abort, abort_stub)]
+fn q_ok_swap_inc_thin() {
+    crate::ghost::arm();
+    let a = Arc::from_header_and_iter(HeaderWithLength::new(1u8, 1), (0..1).map(|_| 2u16));
+    let t = core::mem::ManuallyDrop::new(Arc::into_thin(unsafe { core::ptr::read(&a) }));
+    overflow_contract(&a, || {
+        let _ = <ThinArc<u8, u16> as arc_swap::RefCnt>::inc(&t);
+    });
+    core::mem::forget(a);
+}
+#[kani::proof]
+#[kani::unwind(4)]
+#[kani::stub(std::process::abort, abort_stub_checked)]
+fn q_abort_swap_inc_thin() {
+    crate::ghost::arm();
+    let a = Arc::from_header_and_iter(HeaderWithLength::new(1u8, 1), (0..1).map(|_| 2u16));
+    let t = core::mem::ManuallyDrop::new(Arc::into_thin(unsafe { core::ptr::read(&a) }));
+    abort_contract(&a, || {
+        let _ = <ThinArc<u8, u16> as arc_swap::RefCnt>::inc(&t);
+    });
+    core::mem::forget(a);
+}
